@@ -11,6 +11,8 @@
 #include "uscxml/debug/InterpreterIssue.h"
 #include <xercesc/dom/DOM.hpp>
 #include <unistd.h>
+#include <functional>
+#include "uscxml/interpreter/InterpreterImpl.h"
 #include <sys/wait.h>
 
 using namespace uscxml;
@@ -34,6 +36,8 @@ public:
 	static std::string sid(const DOMElement* s) {
 		std::string id = attr(s, "id");
 		if (id.size()) return id;
+		std::string anon = attr(s, "uvname");
+		if (anon.size()) return anon;
 		std::string ln = X(s->getLocalName()).str();
 		return ln == "scxml" ? "root" : "?" + ln;
 	}
@@ -126,6 +130,20 @@ static std::string traceOne(const std::string& engine, const std::string& events
 		if (engine != "large")
 			al.microStepper = Factory::getInstance()->createMicroStepper(engine, (MicroStepCallbacks*)interp.getImpl().get());
 		interp.setActionLanguage(al);
+		// states without an id are named ?<k> by their position among the state-like elements of the document as written
+		{
+			int k = 0;
+			std::function<void(DOMElement*)> name = [&](DOMElement* e) {
+				std::string ln = X(e->getLocalName()).str();
+				if (ln == "scxml" || ln == "state" || ln == "parallel" || ln == "final" || ln == "history" || ln == "initial") {
+					if (ln != "scxml" && ln != "initial" && !e->hasAttribute(X("id")))
+						e->setAttribute(X("uvname"), X("?" + std::to_string(k)));
+					k++;
+				}
+				for (DOMElement* c = e->getFirstElementChild(); c; c = c->getNextElementSibling()) name(c);
+			};
+			name(interp.getImpl()->getDocument()->getDocumentElement());
+		}
 		RecMonitor* mon = new RecMonitor(&rec);
 		interp.addMonitor(mon);
 		InterpreterState s = interp.step(0);
